@@ -753,7 +753,7 @@ class Domain:
             d = self._index_discharge(t.value, t.slice, st)
             self.oblige(t, "list element store", ["IndexError"], st, d)
             if bp is not None:
-                st = self._tree_kill(st, [("shrink_path", bp)])
+                st = self._tree_kill(st, [("overwrite_path", bp)])  # an element store changes membership, not the length
         elif bt in (T_DICT, T_NDICT) or bp == STORE:
             kp = self.path(t.slice)
             if bp is not None and kp is not None:
@@ -1079,6 +1079,9 @@ class Domain:
                 lp = fx[1]
                 out = {f for f in out if not ((f[0] in ("member", "snap") and f[2] == lp) or (f[0] in ("ub", "eqlen") and lp in F.paths_of(f))
                                               or (f[0] == "lenge" and f[1] == lp))}
+            elif k == "overwrite_path":
+                lp = fx[1]
+                out = {f for f in out if not (f[0] in ("member", "snap") and f[2] == lp)}
             elif k == "below":  # lists at or below this root variable shrink
                 r = fx[1]
                 out = {f for f in out if not ((f[0] in ("member", "snap") and f[2].split(".")[0] == r)
